@@ -440,25 +440,95 @@ example : (handleOnline Fix.repaired [] (runOff Fix.repaired wMaster wHist) (som
     [.patchDevice [(8, 1)], .patchPort 1 [(3, 11), (4, 2)], .patchValue 1 (some 43), .getDevice, .getPorts] := by
   decide
 
-/-! ### Open: device attributes edited several times during one outage -/
+/-! ### Device attributes edited several times during one outage
 
-def devNamesAfter (names : List Nat) (l : List Off) : List Nat :=
-  l.foldl (fun acc x => match x with | .editDev n _ => addName acc n | _ => acc) names
-def devAttrAfter (n : Nat) (a : Option Int) (l : List Off) : Option Int :=
-  l.foldl (fun acc x => match x with | .editDev k v => if k = n then some v else acc | _ => acc) a
+`devNamesAfter names h` / `devAttrAfter n a h` (Proofs/SlaveOffline.lean) are computed from the history alone: the
+edited device attribute names in first-edit order, and the LAST value the user gave each. `hrep`
+(`DevReportsOff`): every device update of the history reports the whole attribute set (cf. `DevReports`) — as
+written, `_handle_device_update` drops a whole update that mentions a pending name and REPLACES the cache otherwise,
+so an update that omitted a pending name would erase it (`device_update_omitting_pending_name_erases_it`). -/
 
-/-- NOT PROVED (statement only). The device-attribute analogue of `offline_attr_edits_last_pushed` over `Off`
-histories: one `PATCH /device` carrying, for every edited name, the last user value. Covered so far: one device edit
-is pending with the user's value (`offline_device_edit_pending`), pending device attributes survive every `Inc`
-history (`offline_device_edits_kept`), whatever is pending is sent in exactly one `PATCH /device` before the refresh
-(`pushed_exactly_once_before_refresh`), and the concrete history `wHist` above (`decide`). `hrep`: every device update
-reports the whole attribute set (cf. `DevReports`). -/
-def offlineDeviceEditsLastPushedFull : Prop :=
-  ∀ (rf : List Nat) (m : Master) (h : List Off) (d : Attrs) (ps : List PortMsg),
+/-- **Several device-attribute edits during one outage: exactly the last user value per edited name is pushed, in
+one `PATCH /device`, exactly once, before the refresh.** General form: names may already be pending (each with a
+value, `hs`); `devLookup m` is what the master holds before the history. Whatever else happens in the history —
+events (device updates included), ticks, value writes, port-attribute edits. -/
+theorem offline_device_edits_last_pushed_general (rf : List Nat) (m : Master) (hoff : m.online = false)
+    (hs : ∀ n ∈ m.devProv, (m.dev.get? n).isSome) (h : List Off) (hrep : DevReportsOff m.devProv h)
+    (d : Attrs) (ps : List PortMsg) :
+    let body := (devNamesAfter m.devProv h).filterMap (fun n => (devAttrAfter n (devLookup m n) h).map (fun v => (n, v)))
+    (handleOnline Fix.repaired rf (runOff Fix.repaired m h) (some d) (some ps)).1.filter Req.isDevPush =
+      (if body.isEmpty then [] else [Req.patchDevice body]) ∧
+    ∃ pushes rest, (handleOnline Fix.repaired rf (runOff Fix.repaired m h) (some d) (some ps)).1 = pushes ++ rest ∧
+      (∀ r ∈ pushes, r.isPush = true) ∧ (∀ r ∈ rest, r.isPush = false) ∧
+      (m.mode = .listen → ∃ q, rest = q ++ [.getDevice, .getPorts]) := by
+  intro body
+  have hi := runOff_dev Fix.repaired h m m.devProv (devLookup m) hoff (invD_start m hs) hrep
+  refine ⟨?_, ?_⟩
+  · rw [handleOnline_reqs, reconnect_dev_reqs, pendDev_of_invD hi]
+  · rw [handleOnline_reqs]
+    refine ⟨pushReqs Fix.repaired _, queryReqs _ ++ refreshReqs _, by rw [List.append_assoc],
+      pushReqs_isPush _ _, ?_, ?_⟩
+    · intro r hr
+      rcases List.mem_append.mp hr with h | h
+      · exact queryReqs_notPush _ r h
+      · exact refreshReqs_notPush _ r h
+    · intro hm
+      have hmode : (runOff Fix.repaired m h).mode = .listen := (runOff_mode _ h m hoff).trans hm
+      exact ⟨queryReqs _, by rw [hmode]; rfl⟩
+
+/-- Nothing pending for the device before the outage: the body of the single `PATCH /device` is computed from the
+history alone — the edited names in first-edit order, each with the LAST value the user gave it. (Formerly the
+unproved statement `offlineDeviceEditsLastPushedFull`.) -/
+theorem offline_device_edits_last_pushed (rf : List Nat) (m : Master) (h : List Off) (d : Attrs) (ps : List PortMsg)
+    (hoff : m.online = false) (hclean : m.devProv = [])
+    (hrep : ∀ a, Off.ev (.deviceUpdate a) ∈ h → ∀ n ∈ devNamesAfter [] h, a.has n = true) :
+    (handleOnline Fix.repaired rf (runOff Fix.repaired m h) (some d) (some ps)).1.filter Req.isDevPush =
+      (if ((devNamesAfter [] h).filterMap (fun n => (devAttrAfter n none h).map (fun v => (n, v)))).isEmpty then []
+       else [Req.patchDevice ((devNamesAfter [] h).filterMap (fun n => (devAttrAfter n none h).map (fun v => (n, v))))]) := by
+  have hs : ∀ n ∈ m.devProv, (m.dev.get? n).isSome := by rw [hclean]; intro n hn; cases hn
+  have hrep' : DevReportsOff m.devProv h := by rw [hclean]; exact hrep
+  have := (offline_device_edits_last_pushed_general rf m hoff hs h hrep' d ps).1
+  have hl : devLookup m = fun _ => none := by
+    funext n; unfold devLookup; rw [hclean]; simp
+  rw [hclean, hl] at this
+  exact this
+
+/-- The statement left open by earlier work, under its former name. -/
+theorem offlineDeviceEditsLastPushedFull :
+    ∀ (rf : List Nat) (m : Master) (h : List Off) (d : Attrs) (ps : List PortMsg),
     m.online = false → m.devProv = [] →
     (∀ a, Off.ev (.deviceUpdate a) ∈ h → ∀ n ∈ devNamesAfter [] h, a.has n = true) →
     (handleOnline Fix.repaired rf (runOff Fix.repaired m h) (some d) (some ps)).1.filter Req.isDevPush =
       (if ((devNamesAfter [] h).filterMap (fun n => (devAttrAfter n none h).map (fun v => (n, v)))).isEmpty then []
-       else [Req.patchDevice ((devNamesAfter [] h).filterMap (fun n => (devAttrAfter n none h).map (fun v => (n, v))))])
+       else [Req.patchDevice ((devNamesAfter [] h).filterMap (fun n => (devAttrAfter n none h).map (fun v => (n, v))))]) :=
+  fun rf m h d ps hoff hclean hrep => offline_device_edits_last_pushed rf m h d ps hoff hclean hrep
+
+-- one outage: device attribute 8 edited twice (1 then 5), attribute 9 once, a device update reporting the whole
+-- attribute set BEFORE the first edit (accepted) and one AFTER (dropped: it mentions pending names), port edits, ticks
+def wDevHist : List Off :=
+  [.ev (.deviceUpdate [(8, 0), (9, 0), (7, 3)]), .tick, .editDev 8 1, .editAttr 1 3 9, .editDev 9 4,
+   .ev (.deviceUpdate [(8, 0), (9, 0), (7, 6)]), .editValue 1 42 true, .editDev 8 5, .tick]
+
+example : devNamesAfter [] wDevHist = [8, 9] ∧ devAttrAfter 8 none wDevHist = some 5 ∧
+    devAttrAfter 9 none wDevHist = some 4 ∧ devAttrAfter 7 none wDevHist = none := by decide
+example : wMaster.online = false ∧ wMaster.devProv = [] ∧
+    (∀ a, Off.ev (.deviceUpdate a) ∈ wDevHist → ∀ n ∈ devNamesAfter [] wDevHist, a.has n = true) := by
+  refine ⟨by decide, by decide, ?_⟩
+  intro a ha
+  have : a = [(8, 0), (9, 0), (7, 3)] ∨ a = [(8, 0), (9, 0), (7, 6)] := by
+    simpa [wDevHist] using ha
+  rcases this with rfl | rfl <;> decide
+example : (runOff Fix.repaired wMaster wDevHist).dev = [(8, 5), (9, 4), (7, 3)] ∧
+    (handleOnline Fix.repaired [] (runOff Fix.repaired wMaster wDevHist) (some []) (some [])).1 =
+      [.patchDevice [(8, 5), (9, 4)], .patchPort 1 [(3, 9)], .patchValue 1 (some 42), .getDevice, .getPorts] := by
+  decide
+
+/-- `hrep` cannot be dropped: a device update that does NOT mention the pending name is accepted and REPLACES the
+cache, the pending name has no value any more and the reconnect pushes nothing for the device. -/
+theorem device_update_omitting_pending_name_erases_it :
+    let h : List Off := [.editDev 8 1, .ev (.deviceUpdate [(7, 3)])]
+    devNamesAfter [] h = [8] ∧ devAttrAfter 8 none h = some 1 ∧
+    (handleOnline Fix.repaired [] (runOff Fix.repaired wMaster h) (some []) (some [])).1.filter Req.isDevPush = [] := by
+  decide
 
 end QtVerif.Slave.C13
